@@ -10,7 +10,7 @@
 From Coq Require Import List Bool NArith PeanoNat.
 Import ListNotations.
 Require Import PV.Binder.Kind PV.Gen.Kinds PV.Binder.Sig PV.Binder.Bind PV.Binder.PyBind.
-Require Import PV.Proofs.BinderConcrete PV.Proofs.BinderValid PV.Proofs.BinderStar PV.Proofs.BinderMain PV.Proofs.BinderDef PV.Proofs.BinderGen PV.Proofs.BinderPositions PV.Proofs.BinderRaw.
+Require Import PV.Proofs.BinderConcrete PV.Proofs.BinderValid PV.Proofs.BinderStar PV.Proofs.BinderMain PV.Proofs.BinderDef PV.Proofs.BinderGen PV.Proofs.BinderPositions PV.Proofs.BinderRaw PV.Proofs.BinderOnce PV.Proofs.BinderUnion.
 Require Import PV.Binder.BindCore PV.Gen.BinderShape.
 Open Scope N_scope.
 
@@ -196,3 +196,40 @@ Theorem C05_raw_reject_complete_partial : forall s ps ks,
   forall npos kws, raw_expands true (ps ++ ks) npos kws -> py_bind s npos kws = false.
 Proof. exact raw_reject_complete_partial. Qed.
 Print Assumptions C05_raw_reject_complete_partial.
+
+(* 10. Binds-once (used per instance by the overload theorems of C08): when the binder
+       accepts a call without star-arguments, every parameter has exactly one entry (in
+       signature order), the positional arguments consumed — by Pos entries or by the slice
+       *args collects — are exactly 0 .. n-1 in order, and the keyword arguments consumed —
+       by Kw entries or by the names **kwargs collects — are a permutation of the call's
+       keywords: no actual is bound twice or dropped. *)
+Theorem C05_bind_binds_once : forall s a b,
+  valid_sig s = true -> concrete a -> names_nodup (map fst (keywords a)) = true ->
+  bind s a = Some b ->
+  map (fun e : entry => fst (fst e)) b = map pname s
+  /\ pos_used b = seq 0 (length (positionals a))
+  /\ Permutation.Permutation (kw_used b) (map fst (keywords a)).
+Proof. exact bind_binds_once. Qed.
+Print Assumptions C05_bind_binds_once.
+
+(* 11. Possibly-provided keywords (definitely_provided = False: a key that some member of a
+       union of closed mappings passed as **x lacks; `preprocess_u` models the key-by-key
+       merge of preprocess_args).  If the binder accepts a call without star-arguments,
+       CPython binds it for EVERY set of keywords between the definitely provided ones and
+       all of them — in particular for every member of the union. *)
+Theorem C05_possible_keywords_sound : forall s a K,
+  valid_sig s = true -> flagged a -> names_nodup K = true ->
+  (forall k, kw_lookup k (keywords a) = Some true -> memN k K = true) ->
+  (forall k, memN k K = true -> kw_lookup k (keywords a) <> None) ->
+  accepts s a = true ->
+  py_bind s (length (positionals a)) K = true.
+Proof. exact possible_keywords_sound. Qed.
+Print Assumptions C05_possible_keywords_sound.
+
+Example C05_union_example :
+  let s := [mkParam 1 POK false; mkParam 2 POK true; mkParam 9 VK false] in
+  call_ok_u s [UKwUnion [[1]; [1; 2; 7]]] = true
+  /\ py_bind s 0 [1] = true /\ py_bind s 0 [1; 2; 7] = true
+  /\ call_ok_u [mkParam 1 POK false; mkParam 2 POK false] [UKwUnion [[1]; [1; 2]]] = false.
+Proof. exact union_example. Qed.
+Print Assumptions C05_union_example.
